@@ -77,4 +77,29 @@ Open Scope Z_scope.
         ],
         "examples": [],
     },
+    "C09": {
+        "title": "Traveltime interpolation honours nodes, source and physical bounds (model: gen/Vinterp2d.v, gen/Vinterp3d.v)",
+        "header": HDR_R.format(imports="From FT.proofs Require Import SSR InterpR Interp3R VinterpR Vinterp3R."),
+        "theorems": [
+            ("vinterp2d_outside", "VinterpR.vinterp2d_outside", "every numeric instance (binary64 with NaN): outside the hull or for a NaN coordinate the fill value is returned; the hull boundary counts as inside (the test uses <=)"),
+            ("vinterp2d_source_cell_any_instance", "VinterpR.vinterp2d_source_cell_gen", "every numeric instance: a query in the source's cell gets vzero * distance"),
+            ("vinterp2d_source", "VinterpR.vinterp2d_source", "0 at the source"),
+            ("vinterp2d_source_cell", "VinterpR.vinterp2d_source_cell", "source-cell slowness x distance inside the source's cell"),
+            ("vinterp2d_zero_corner", "VinterpR.vinterp2d_zero_corner", "a cell touching the source (a corner with time 0) also gets vzero * distance"),
+            ("vinterp2d_spec", "VinterpR.vinterp2d_spec", "elsewhere: distance / (bilinear interpolant of the corners' apparent velocities distance/time) on the enclosing cell"),
+            ("vinterp2d_spec_far_faces", "VinterpR.vinterp2d_spec_far_faces", "on a far face the same value is expressed with the corners of that face only"),
+            ("vinterp2d_node", "VinterpR.vinterp2d_node", "the stored node value at every node that does not touch the source"),
+            ("vinterp2d_bounds", "VinterpR.vinterp2d_bounds", "between distance/max and distance/min of the corners' apparent velocities"),
+            ("vinterp2d_homogeneous_exact", "VinterpR.vinterp2d_homogeneous_exact", "exact on exact homogeneous node times"),
+            ("vinterp3d_outside", "Vinterp3R.vinterp3d_outside", "3D: fill value, every numeric instance"),
+            ("vinterp3d_source", "Vinterp3R.vinterp3d_source", "3D: 0 at the source"),
+            ("vinterp3d_source_cell", "Vinterp3R.vinterp3d_source_cell", "3D: vzero * distance in the source cell"),
+            ("vinterp3d_zero_corner", "Vinterp3R.vinterp3d_zero_corner", "3D: also in a cell with a zero-time corner"),
+            ("vinterp3d_spec", "Vinterp3R.vinterp3d_spec", "3D: distance / trilinear interpolant of apparent velocities"),
+            ("vinterp3d_node", "Vinterp3R.vinterp3d_node", "3D: node values"),
+            ("vinterp3d_bounds", "Vinterp3R.vinterp3d_bounds", "3D: physical bounds"),
+            ("vinterp3d_homogeneous_exact", "Vinterp3R.vinterp3d_homogeneous_exact", "3D: exact on homogeneous times"),
+        ],
+        "examples": [],
+    },
 }
